@@ -76,3 +76,12 @@ Definition check_bald (c : bald_case) : bool :=
   list_eqb (list_eqb oz_eqb) (map snd (bald_internal m score k nzA)) table &&
   forallb (fun ir => Nat.eqb (count_nonnan (snd ir)) (m - fst ir)) (combine (seq 0 k) table) &&
   trace_eqb (bald_trace n m mapping score k nzA nzsB) t.
+
+(* RegressionTreeBasedAL (random / diversity): (leaf of every candidate, value key of every candidate, key of -inf, schedule = leaf per
+   step, noises, remap?, n, mapping, returned trace) *)
+Definition rt_case := (list nat * list Z * Z * list nat * list (list Z) * bool * nat * list nat * list (nat * list val))%type.
+Definition check_regtree (c : rt_case) : bool :=
+  let '(leaves, values, neg, sched, noises, rm, n, mapping, t) := c in
+  let m := length leaves in
+  let t0 := rt_loop m (fun j => nth j leaves O) (fun j => nth j values 0) neg sched noises in
+  trace_eqb (if rm then remap n mapping t0 else t0) t.
